@@ -404,3 +404,111 @@ fn c23_o2_lru_entry_pointer_roundtrip() {
     assert!(unsafe { *back.fields.get() } == 7);
     std::mem::forget(v);
 }
+
+// ---------------------------------------------------------------------------------------------
+// C07-O6 / C09-O5: the slot-reuse branch of `intern_id` (hashbrown-backed; stretch harnesses)
+// ---------------------------------------------------------------------------------------------
+
+/// One stale, reclaimable value (data 7) is interned and sits in the LRU; the collector is primed; then a query whose
+/// stamp durability is `reader_low ? LOW : NEVER_CHANGE` interns different data (9), which takes the reuse branch.
+fn intern_reuse_case(reader_low: bool) {
+    let (zalsa, revs) = any_zalsa();
+    let now = revs[0];
+    let ing = IngredientImpl::<VInt<1>>::new(IngredientIndex::new(0));
+    let new_key: u32 = 9;
+    let old_data: u32 = 7;
+    let h_new = ing.hasher.hash_one(&new_key);
+    let h_old = ing.hasher.hash_one(&old_data);
+    let shard_index = ing.shard(h_new);
+    // symbolic history: queue primed at `recorded`, old value last interned before that
+    let recorded: usize = kani::any();
+    let last: usize = kani::any();
+    kani::assume(2 <= recorded && recorded <= now && 1 <= last && last < recorded);
+    ing.revision_queue.record(Revision::from(recorded));
+    let generation: u32 = kani::any();
+    kani::assume(generation != u32::MAX);
+    let page = zalsa.table().push_page::<Value<VInt<1>>>(IngredientIndex::new(0), ing.memo_table_types.clone());
+    let types = ing.memo_table_types.clone();
+    // SAFETY: single-threaded; we are the unique writer of the page.
+    let id0 = match unsafe {
+        zalsa.table().page::<Value<VInt<1>>>(page).allocate(page, |id| {
+            let mut v = value_of::<1>(id.with_generation(generation), last, Durability::LOW, &types);
+            v.shard = shard_index as u16;
+            v
+        })
+    } {
+        Ok((id, _)) => id,
+        Err(_) => panic!("fresh page is full"),
+    };
+    {
+        let value: &Value<VInt<1>> = zalsa.table().get(id0);
+        let mut shard = ing.shards[shard_index].lock();
+        // SAFETY: we hold the shard lock and `value` is a live, stable value of this ingredient.
+        unsafe { ing.insert_value(&mut shard, h_old, value) };
+    }
+    let local = ZalsaLocal::new();
+    let guard = local.push_query(key(3, 0, 0));
+    if reader_low {
+        local.report_untracked_read(Revision::from(now)); // forces the reader's stamp to (LOW, now)
+    }
+    let got = ing.intern_id(&zalsa, &local, new_key, |_id, k| k);
+    // --- the reuse branch must have been taken: same slot, next generation
+    assert!(got.index() == id0.index(), "C09: a stale reclaimable slot was not reused although the collector is primed (retention model)");
+    assert!(got.generation() == generation + 1, "C07: a reused interned slot kept its generation");
+    let value: &Value<VInt<1>> = zalsa.table().get(id0);
+    // SAFETY: single-threaded.
+    let (meta, data, dur) = unsafe { (*value.lru.metadata.get(), *value.fields.get(), *value.durability.get()) };
+    assert!(data == new_key, "C08/C07: the reused slot does not hold the newly interned data");
+    assert!(meta.id == got, "C07: slot metadata does not carry the new id");
+    assert!(meta.last_interned_at.as_usize() == now, "C09: reused value not marked as interned in this revision");
+    let expect_d = if reader_low { Durability::LOW } else { Durability::NEVER_CHANGE };
+    assert!(dur == expect_d, "C09: the value's durability is not the interning query's durability");
+    {
+        let shard = ing.shards[shard_index].lock();
+        let in_lru = !shard.lru.is_empty();
+        assert!(in_lru == reader_low, "C09: a value interned by a non-LOW query stayed reclaimable (in the LRU), or a LOW one left it");
+    }
+    // --- what the interning query recorded
+    // SAFETY: no reentrant access to the query stack.
+    let new_key_index = ing.database_key_index(got);
+    let (has_edge, stamp) = unsafe {
+        local.with_query_stack_unchecked(move |stack| {
+            let q = stack.last().unwrap();
+            (crate::active_query::verif::frame_has_input_edge(q, new_key_index), q.stamp())
+        })
+    };
+    assert!(stamp.changed_at.as_usize() == now, "C01: interning did not raise the reader's changed_at to now");
+    if reader_low {
+        assert!(has_edge, "C07: no dependency edge on a reclaimable interned value was recorded (a later reclaim would go unnoticed)");
+    }
+    kani::cover!(generation == 0);
+    kani::cover!(last + 1 < recorded && recorded < now);
+    std::mem::forget(guard);
+    std::mem::forget(local);
+    std::mem::forget(ing);
+    std::mem::forget(zalsa);
+}
+
+// @verif prop=C07,C09,C01 obl=O6 tier=thorough bounds="STRETCH (hashbrown-backed): one stale LOW value (concrete data 7) in one shard, collector primed (REVS = 1) at a symbolic revision, symbolic stored generation < u32::MAX and revisions; a reader with NEVER_CHANGE stamp interns concrete data 9"
+// @+ encodes="interned::IngredientImpl::<VInt<1>>::intern_id (reuse branch), IngredientImpl::insert_value, find_reusable_slot, hashbrown HashTable::find/reserve/find_entry/remove/insert_unique, report_tracked_read_if_reusable, IngredientImpl::clear_memos, intrusive LinkedList push_front/remove"
+/// C09-O5/C07-O6: reuse through the real `intern_id` by a durable (non-LOW) query: the slot gets generation + 1, the new
+/// data and the query's durability, and is **not** left in the LRU (so it can never be reclaimed).
+#[kani::proof]
+#[kani::unwind(9)]
+#[kani::stub(real_catch_unwind, stub_catch_unwind)]
+#[kani::stub(crate::sync::max_parallelism, stub_max_parallelism)]
+fn c09_o5_intern_reuse_by_durable_query() {
+    intern_reuse_case(false);
+}
+
+// @verif prop=C07,C09,C01 obl=O6 tier=thorough bounds="STRETCH (hashbrown- and indexmap-backed): as c09_o5_intern_reuse_by_durable_query with a reader whose stamp is (LOW, now)"
+// @+ encodes="interned::IngredientImpl::<VInt<1>>::intern_id (reuse branch), report_tracked_read_if_reusable, ZalsaLocal::report_tracked_read_simple, ActiveQuery::add_read_simple (FxIndexSet insert)"
+/// C07-O6: reuse by a LOW query: additionally the value stays reclaimable (in the LRU) and the interning query records a
+/// dependency edge on the *new* id, so that a later reclaim invalidates it.
+#[kani::proof]
+#[kani::unwind(9)]
+#[kani::stub(real_catch_unwind, stub_catch_unwind)]
+#[kani::stub(crate::sync::max_parallelism, stub_max_parallelism)]
+fn c07_o6_intern_reuse_by_low_query() {
+    intern_reuse_case(true);
+}
